@@ -154,6 +154,14 @@ func RunOne(t *testing.T, req RunReq) (res RunRes) {
 			// teardown: free-running; give timers a chance to expire
 			synctest.Wait()
 			for i := 0; i < 4 && runtime.NumGoroutine() > base+2; i++ {
+				if len(env.Violations()) > 0 || runtime.NumGoroutine() > base+2+400 {
+					// a scenario that returned at its first violation leaves its world
+					// running (clients not closed): the verdict is final, abandon the process;
+					// hundreds of leaked connections pinging each other: letting them
+					// free-run for minutes of fake time takes minutes of real time and
+					// cannot end with an empty bubble anyway
+					break
+				}
 				time.Sleep(2 * time.Minute)
 				synctest.Wait()
 			}
